@@ -7,6 +7,9 @@ pub enum Rule {
     Pow { d: u32, c: u64 },
     /// x' = x * k(step) + c with a periodic column k of the given cycle length (k_i = i + 2)
     Periodic { cycle: usize, c: u64 },
+    /// x' = x * ka(step) + kb(step) with TWO periodic columns of different cycle lengths (ka_i = i + 2 over
+    /// `cycle_a`, kb_i = i + 2 over `cycle_b`)
+    Periodic2 { cycle_a: usize, cycle_b: usize },
     /// x' = m * x where m is the root of unity of order `order`: the column is periodic with that
     /// period and its interpolant has degree n/order ... a low-degree column
     Rot { order: usize },
@@ -89,9 +92,10 @@ impl AirSpec {
     pub fn periodic_cycles(&self) -> Vec<usize> {
         self.rules
             .iter()
-            .filter_map(|r| match r {
-                Rule::Periodic { cycle, .. } => Some(*cycle),
-                _ => None,
+            .flat_map(|r| match r {
+                Rule::Periodic { cycle, .. } => vec![*cycle],
+                Rule::Periodic2 { cycle_a, cycle_b } => vec![*cycle_a, *cycle_b],
+                _ => vec![],
             })
             .collect()
     }
@@ -101,7 +105,7 @@ impl AirSpec {
         for r in self.rules.iter() {
             let bound = match r {
                 Rule::Pow { d, .. } => (*d as usize).max(1) - 1,
-                Rule::Periodic { .. } => 1,
+                Rule::Periodic { .. } | Rule::Periodic2 { .. } => 1,
                 _ => 0,
             };
             b = b.max(bound.next_power_of_two().max(2));
@@ -122,6 +126,7 @@ impl AirSpec {
             match r {
                 Rule::Pow { d, c } => v.extend([1, *d as u64, *c]),
                 Rule::Periodic { cycle, c } => v.extend([2, *cycle as u64, *c]),
+                Rule::Periodic2 { cycle_a, cycle_b } => v.extend([6, *cycle_a as u64, *cycle_b as u64]),
                 Rule::Rot { order } => v.extend([3, *order as u64, 0]),
                 Rule::FibA => v.extend([4, 0, 0]),
                 Rule::FibB => v.extend([5, 0, 0]),
